@@ -1,6 +1,9 @@
 package nfs
 
 import (
+	"encoding/binary"
+	"time"
+
 	"github.com/goose-lang/primitive/disk"
 
 	"github.com/mit-pdos/go-journal/buf"
@@ -10,6 +13,7 @@ import (
 	"github.com/mit-pdos/go-nfsd/dir"
 	"github.com/mit-pdos/go-nfsd/fstxn"
 	"github.com/mit-pdos/go-nfsd/inode"
+	"github.com/mit-pdos/go-nfsd/nfstypes"
 	"github.com/mit-pdos/go-nfsd/shrinker"
 	"github.com/mit-pdos/go-nfsd/super"
 	"github.com/mit-pdos/go-nfsd/util/stats"
@@ -22,6 +26,9 @@ type Nfs struct {
 	Unstable bool
 	// statistics
 	stats [NUM_NFS_OPS]stats.Op
+	// write verifier: changes whenever the server restarts, so that clients
+	// can tell that uncommitted unstable writes may have been lost
+	verf nfstypes.Writeverf3
 }
 
 func MakeNfs(d disk.Disk) *Nfs {
@@ -45,6 +52,7 @@ func MakeNfs(d disk.Disk) *Nfs {
 		shrinkst: shrinker.MkShrinkerSt(st),
 		Unstable: true,
 	}
+	binary.LittleEndian.PutUint64(nfs.verf[:], uint64(time.Now().UnixNano()))
 	if i.Kind == 0 {
 		nfs.makeRootDir()
 	}
